@@ -1,7 +1,7 @@
 from props.common import *
 from props.c05 import adv_size
 
-FAULTS_FAIL = ("status", "empty", "hang", "midhang", "trickle", "reset", "stall", "abort")
+FAULTS_FAIL = ("status", "empty", "hang", "midhang", "trickle", "reset", "stall", "abort", "shortcl", "finmid")
 
 def oracle_upfault(case, impl):
     """C03 direct checks: completion within timeout + slack; SERVFAIL for every failing fault;
